@@ -625,9 +625,13 @@ impl Runner {
             let extra_base = self.extra.data_start();
             let (pl, ml) = (case.pkt.len(), case.mbuff.len());
             let slot = &mut sh.slots[idx];
-            // half of the cases (a function of the program) create the VM empty, configure helpers
-            // and calculator first, and load the program last: the other legal order of the API
-            let late = crate::engine::fnv(&case.prog) & 4 != 0;
+            // a third of the cases each (a function of the program): program given to new();
+            // VM created empty, configured, program loaded last; program given to new(), VM
+            // configured, the same program loaded again with set_program() - the configuration
+            // must survive a reload
+            let order = (crate::engine::fnv(&case.prog) >> 2) % 3;
+            let late = order == 1;
+            let reload = order != 0;
             match case.vm {
                 VmKind::NoData => match if late { rbpf::EbpfVmNoData::new(None) } else { rbpf::EbpfVmNoData::new(Some(prog)) } {
                     Err(e) => {
@@ -636,7 +640,7 @@ impl Runner {
                     }
                     Ok(mut vm) => {
                         configure_vm!(vm, case, extra_base);
-                        match if late { vm.set_program(prog) } else { Ok(()) } {
+                        match if reload { vm.set_program(prog) } else { Ok(()) } {
                             Err(e) => {
                                 slot.status = ST_VERIFIER_ERR;
                                 set_msg(slot, &e.to_string());
@@ -654,7 +658,7 @@ impl Runner {
                     }
                     Ok(mut vm) => {
                         configure_vm!(vm, case, extra_base);
-                        match if late { vm.set_program(prog) } else { Ok(()) } {
+                        match if reload { vm.set_program(prog) } else { Ok(()) } {
                             Err(e) => {
                                 slot.status = ST_VERIFIER_ERR;
                                 set_msg(slot, &e.to_string());
@@ -672,7 +676,7 @@ impl Runner {
                     }
                     Ok(mut vm) => {
                         configure_vm!(vm, case, extra_base);
-                        match if late { vm.set_program(prog) } else { Ok(()) } {
+                        match if reload { vm.set_program(prog) } else { Ok(()) } {
                             Err(e) => {
                                 slot.status = ST_VERIFIER_ERR;
                                 set_msg(slot, &e.to_string());
@@ -690,7 +694,7 @@ impl Runner {
                     }
                     Ok(mut vm) => {
                         configure_vm!(vm, case, extra_base);
-                        match if late { vm.set_program(prog, data_off, end_off) } else { Ok(()) } {
+                        match if reload { vm.set_program(prog, data_off, end_off) } else { Ok(()) } {
                             Err(e) => {
                                 slot.status = ST_VERIFIER_ERR;
                                 set_msg(slot, &e.to_string());
